@@ -2367,3 +2367,13 @@ M("C15-unparsable-forcetype-used-anyway", "C15", F_IB,
   "      cerr << \"Failure to parse forcetype \" << *ci << \"\\n\";\n      continue;\n    }\n    get_type(type, true);",
   "      cerr << \"Failure to parse forcetype \" << *ci << \"\\n\";\n    }\n    assert(type != nullptr);\n    get_type(type, true);",
   expect="R15.33|InterrogateBuilder::build|")
+
+# ---- R02.14 (F-C02c, F-C02d: new references from _getitem_func)
+F_PW = "src/interrogatedb/py_wrappers.cxx"
+MUTANTS.append({"id": "C02-contains-keeps-the-fetched-element", "prop": "C02", "expect": "R02.14|Dtool_SequenceWrapper_contains|item|released", "benign": False, "edits": [
+    (F_PW, "      int cmp = PyObject_RichCompareBool(item, value, Py_EQ);\n      Py_DECREF(item);\n      if (cmp > 0) {\n        return 1;", "      int cmp = PyObject_RichCompareBool(item, value, Py_EQ);\n      if (cmp > 0) {\n        return 1;")]})
+M("C02-pop-keeps-the-value-when-removal-fails", "C02", F_PW,
+  "    if (wrap->_setitem_func(wrap->_base._self, index, nullptr) != 0) {\n      Py_DECREF(value);\n      return nullptr;", "    if (wrap->_setitem_func(wrap->_base._self, index, nullptr) != 0) {\n      return nullptr;",
+  expect="R02.14|Dtool_MutableSequenceWrapper_pop|value|released")
+M("C02-benign-contains-releases-before-comparing-result", "C02", F_PW,
+  "      int cmp = PyObject_RichCompareBool(item, value, Py_EQ);\n      Py_DECREF(item);\n      if (cmp > 0) {\n        return 1;", "      int cmp = PyObject_RichCompareBool(item, value, Py_EQ);\n      Py_XDECREF(item);\n      if (cmp > 0) {\n        return 1;", benign=True)
